@@ -9,7 +9,7 @@ EXTENDS MiniJS, Json, IOUtils
 
 Tier == IF "TIER" \in DOMAIN IOEnv THEN IOEnv.TIER ELSE "quick"
 Quick == Tier = "quick"
-MaxSteps == 1000
+MaxSteps == 800
 
 \* ======================= family CF: loop kind x exit kind x enclosing construct x placement =====
 N == Var("n")
@@ -110,14 +110,243 @@ CFQuickSel(c) ==
   \/ (c.kd \in {"while", "forin", "switch"} /\ c.ex \in {"break", "returnv", "throw", "continueM"} /\ c.pl \in {"top", "left", "arg", "cb"})
 CFCases == {c \in CFAll : CFValid(c) /\ (c.ex = "throw" => (c.guard \/ c.pl \in {"top", "stmt"})) /\ (~Quick \/ CFQuickSel(c))}
 
+\* ======================= family SW: switch fall-through, default anywhere, lazy case tests ========
+\* switch (t(d)) { case t(1): log(1) [break]  case t(2): ...  case t(3): ... } with `default` inserted at slot dp
+I(n) == ENum(n)
+TV(v) == Call(Var("t"), <<I(v)>>)
+TVDef == SFun("t", <<"v">>, <<SLog(Plus(I(100), Var("v"))), SRet(Var("v"))>>)
+Bit(mask, j) == (mask \div (2 ^ (j - 1))) % 2 = 1
+SWClauses(dp) == LET cs == <<1, 2, 3>> IN
+                 IF dp = 0 THEN cs ELSE SubSeq(cs, 1, dp - 1) \o <<0>> \o SubSeq(cs, dp, 3)       \* 0 marks default
+SWProg(c) ==
+  LET cl == SWClauses(c.dp)
+      clause(j) == Case(IF cl[j] = 0 THEN NoE ELSE TV(cl[j]),
+                        <<SLog(I(IF cl[j] = 0 THEN 9 ELSE cl[j]))>> \o (IF Bit(c.mask, j) THEN <<SBreak("")>> ELSE <<>>))
+  IN Prog(<<TVDef, SSwitch(TV(c.d), [j \in 1..Len(cl) |-> clause(j)]), SLog(I(50))>>)
+SWCases == {c \in [d : 0..4, dp : 0..4, mask : 0..15] : (c.dp = 0 => c.mask < 8) /\ (~Quick \/ c.mask \in {0, 5, 10, 15, 7})}
+
+\* ======================= family EO: evaluation order (every operand is a logging call) ===============
+T(k, v) == Call(Var("t"), <<I(k), v>>)
+TDef == SFun("t", <<"k", "v">>, <<SLog(Var("k")), SRet(Var("v"))>>)
+GDef == SFun("g", <<"a", "b", "c">>, <<SLog(EStr("g")), SRet(Plus(Plus(Var("a"), Var("b")), Var("c")))>>)
+ODef == SVar1("o", Obj(<<"k", "m">>, <<I(5), Fun("", <<"a">>, <<SLog(EStr("m")), SRet(Plus(Var("a"), I(1)))>>)>>))
+SDef == SFun("s", <<"v">>, <<Set("x", I(100)), SRet(Var("v"))>>)           \* a call that changes x
+BinOps == <<"+", "-", "*", "<", ">", "<=", ">=", "==", "!=", "===", "!==">>
+EOBodies ==
+  [j \in 1..Len(BinOps) |-> <<SLog(Bin(BinOps[j], T(1, I(2)), T(2, I(3))))>>] \o
+  <<
+    <<SLog(And(T(1, I(0)), T(2, I(5))))>>, <<SLog(And(T(1, I(1)), T(2, I(5))))>>,
+    <<SLog(Or(T(1, I(0)), T(2, I(5))))>>, <<SLog(Or(T(1, I(1)), T(2, I(5))))>>,
+    <<SLog(Cond(T(1, EBool(TRUE)), T(2, I(5)), T(3, I(6))))>>, <<SLog(Cond(T(1, EBool(FALSE)), T(2, I(5)), T(3, I(6))))>>,
+    <<SLog(Call(T(0, Var("g")), <<T(1, I(1)), T(2, I(2)), T(3, I(3))>>))>>,
+    <<SLog(Call(Var("g"), <<T(1, I(1)), Call(Var("g"), <<T(2, I(2)), T(3, I(3)), I(0)>>), T(4, I(4))>>))>>,
+    <<SLog(Call(Dot(T(1, Var("o")), "m"), <<T(2, I(1))>>))>>,
+    <<SLog(Call(Mem(T(1, Var("o")), T(2, EStr("m"))), <<T(3, I(1))>>))>>,
+    <<SLog(Mem(T(1, Var("o")), T(2, EStr("k"))))>>,
+    <<SLog(MAsg(Mem(T(1, Var("o")), T(2, EStr("z"))), T(3, I(7)))), SLog(Dot(Var("o"), "z"))>>,
+    <<SLog(MAsg(Dot(T(1, Var("o")), "z"), T(2, I(7)))), SLog(Dot(Var("o"), "z"))>>,
+    <<SLog(MUpd("++", FALSE, Mem(T(1, Var("o")), T(2, EStr("k"))))), SLog(Dot(Var("o"), "k"))>>,
+    <<SLog(MUpd("--", TRUE, Dot(T(1, Var("o")), "k"))), SLog(Dot(Var("o"), "k"))>>,
+    <<SLog(Dot(New(T(0, Var("Error")), <<T(1, EStr("msg"))>>), "message"))>>,
+    <<SLog(Dot(Arr(<<T(1, I(1)), T(2, I(2)), T(3, I(3))>>), "length"))>>,
+    <<SLog(Dot(Obj(<<"a", "b">>, <<T(1, I(1)), T(2, I(2))>>), "b"))>>,
+    <<SLog(Comma(<<T(1, I(1)), T(2, I(2))>>))>>,
+    <<SVar(<<Decl("a", T(1, I(1))), Decl("b", T(2, I(2)))>>), SLog(Plus(Var("a"), Var("b")))>>,
+    <<Set("x", I(1)), SExpr(CAsg("+", "x", Call(Var("s"), <<I(2)>>))), SLog(Var("x"))>>,          \* old value read first: 3
+    <<Set("x", I(1)), SLog(Plus(Var("x"), Call(Var("s"), <<I(2)>>)))>>,                            \* 3
+    <<Set("x", I(1)), SLog(Plus(Call(Var("s"), <<I(2)>>), Var("x")))>>,                            \* 102
+    <<Set("x", I(1)), SLog(Plus(Upd("++", FALSE, "x"), Var("x"))), SLog(Var("x"))>>,               \* 1 + 2
+    <<Set("x", I(1)), SLog(Plus(Upd("++", TRUE, "x"), Upd("--", FALSE, "x"))), SLog(Var("x"))>>,   \* 2 + 2, x = 1
+    <<Set("x", I(1)), SLog(Bin("-", Var("x"), Asg("x", I(5)))), SLog(Var("x"))>>,                  \* 1 - 5
+    <<SVar1("u", NoE), STry(SBlock(<<SExpr(Call(Var("u"), <<T(1, I(1))>>))>>), "e", SBlock(<<SLog(Dot(Var("e"), "name"))>>), NoS)>>,
+    <<STry(SBlock(<<SExpr(Call(Var("zz"), <<T(1, I(1))>>))>>), "e", SBlock(<<SLog(Dot(Var("e"), "name"))>>), NoS)>>,
+    <<STry(SBlock(<<SExpr(Call(Dot(ENull, "m"), <<T(1, I(1))>>))>>), "e", SBlock(<<SLog(Dot(Var("e"), "name"))>>), NoS)>>,
+    <<STry(SBlock(<<SExpr(Mem(ENull, T(1, EStr("k"))))>>), "e", SBlock(<<SLog(Dot(Var("e"), "name"))>>), NoS)>>,
+    <<SSwitch(T(1, I(2)), <<Case(T(2, I(1)), <<SLog(EStr("a"))>>), Case(T(3, I(2)), <<SLog(EStr("b"))>>), Case(T(4, I(3)), <<SLog(EStr("c"))>>)>>)>>,
+    <<SFor(SExpr(T(1, I(0))), Bin("<", T(2, Var("x")), I(2)), T(3, Upd("++", FALSE, "x")), SBlock(<<SLog(EStr("b"))>>))>>,
+    <<SForIn(TRUE, "k", T(1, Obj(<<"p", "q">>, <<I(1), I(2)>>)), SBlock(<<SLog(Var("k"))>>))>>,
+    <<SDo(SBlock(<<SLog(EStr("b")), Inc("x")>>), Bin("<", T(1, Var("x")), I(2)))>>,
+    <<SExpr(Call(Dot(Arr(<<T(1, I(7)), T(2, I(8))>>), "forEach"), <<T(3, Fun("", <<"v", "j">>, <<SLog(Plus(Var("v"), Var("j")))>>))>>))>>
+  >>
+EOProg(j) == Prog(<<SVar1("x", I(0)), TDef, GDef, SDef, ODef>> \o EOBodies[j] \o <<SLog(I(50))>>)
+
+\* ======================= family HO: hoisting ========================================================
+HOBodies == <<
+    <<SLog(Var("a")), SVar1("a", I(1)), SLog(Var("a"))>>,                                          \* undefined, 1
+    <<SLog(Call(Var("h"), <<>>)), SFun("h", <<>>, <<SRet(I(2))>>)>>,                               \* called before its declaration
+    <<SLog(TypeOf(Var("h"))), SLog(TypeOf(Var("a"))), SLog(TypeOf(Var("nope"))), SFun("h", <<>>, <<>>), SVar1("a", I(1))>>,
+    <<SFun("w", <<>>, <<SLog(Var("a")), SLog(Call(Var("h"), <<>>)), SVar1("a", I(1)), SFun("h", <<>>, <<SRet(Var("a"))>>), SLog(Call(Var("h"), <<>>))>>),
+      SExpr(Call(Var("w"), <<>>))>>,
+    <<SFun("w", <<>>, <<SIf(EBool(FALSE), SBlock(<<SVar1("a", I(1))>>), NoS), SLog(Var("a")),
+                        SFor(SVar1("b", I(0)), Bin("<", Var("b"), I(1)), Upd("++", FALSE, "b"), SBlock(<<SVar1("c", I(3))>>)), SLog(Plus(Var("b"), Var("c")))>>),
+      SExpr(Call(Var("w"), <<>>))>>,
+    <<SVar1("a", I(1)), SVar1("a", NoE), SLog(Var("a"))>>,                                         \* re-declaration keeps the value
+    <<SFun("w", <<"p">>, <<SVar1("p", NoE), SLog(Var("p")), SVar1("q", I(2)), SVar1("q", NoE), SLog(Var("q"))>>), SExpr(Call(Var("w"), <<I(7)>>))>>,
+    <<SFun("w", <<"p">>, <<SLog(TypeOf(Var("p"))), SFun("p", <<>>, <<>>)>>), SExpr(Call(Var("w"), <<I(7)>>))>>,      \* declaration beats parameter
+    <<SFun("h", <<>>, <<SRet(I(1))>>), SLog(Call(Var("h"), <<>>)), SFun("h", <<>>, <<SRet(I(2))>>)>>,   \* last declaration wins
+    <<SVar1("h", I(1)), SFun("h", <<>>, <<>>), SLog(TypeOf(Var("h")))>>,                           \* "number"
+    <<SLog(TypeOf(Var("h"))), SVar1("h", NoE), SFun("h", <<>>, <<>>)>>,                            \* "function"
+    <<SFun("w", <<>>, <<SRet(Call(Var("h"), <<>>)), SFun("h", <<>>, <<SRet(I(3))>>)>>), SLog(Call(Var("w"), <<>>))>>,   \* after return
+    <<SFun("w", <<>>, <<STry(SBlock(<<SThrow(I(1))>>), "e", SBlock(<<SVar1("a", Var("e"))>>), NoS), SLog(Var("a"))>>), SExpr(Call(Var("w"), <<>>))>>,
+    <<SVar1("e", I(1)), STry(SBlock(<<SThrow(I(2))>>), "e", SBlock(<<SLog(Var("e"))>>), NoS), SLog(Var("e"))>>,    \* catch parameter is block scoped
+    <<SFun("w", <<>>, <<SVar1("e", I(1)), STry(SBlock(<<SThrow(I(2))>>), "e", SBlock(<<SLog(Var("e"))>>), NoS), SLog(Var("e"))>>), SExpr(Call(Var("w"), <<>>))>>,
+    <<SFun("w", <<>>, <<SLog(Call(Var("h1"), <<>>)), SFun("h1", <<>>, <<SRet(Call(Var("h2"), <<>>))>>), SFun("h2", <<>>, <<SRet(I(4))>>)>>), SExpr(Call(Var("w"), <<>>))>>,
+    <<SExpr(Asg("a", I(5))), SLog(Var("a")), SVar1("a", NoE), SLog(Var("a"))>>,
+    <<SFun("w", <<>>, <<SLog(TypeOf(Var("arguments"))), SLog(Dot(Var("arguments"), "length")), SLog(Mem(Var("arguments"), I(1)))>>), SExpr(Call(Var("w"), <<I(7), I(8), I(9)>>))>>
+  >>
+HOProg(j) == Prog(HOBodies[j] \o <<SLog(I(50))>>)
+
+\* ======================= family CV: completion value of the script ====================================
+W1(b) == SWhile(Bin("<", Var("x"), I(1)), SBlock(<<Inc("x")>> \o b))
+CVBodies == <<
+    <<SExpr(I(1)), SWhile(EBool(TRUE), SBlock(<<SExpr(I(2)), SBreak("")>>))>>,
+    <<SExpr(I(1)), W1(<<SExpr(I(2))>>)>>,
+    <<SExpr(I(1)), W1(<<>>)>>,
+    <<SExpr(I(1)), SVar1("y", I(2))>>,
+    <<SExpr(I(1)), SEmpty>>,
+    <<SExpr(I(1)), SIf(EBool(FALSE), SBlock(<<SExpr(I(2))>>), NoS)>>,
+    <<SExpr(I(1)), SIf(EBool(TRUE), SBlock(<<SExpr(I(2))>>), NoS)>>,
+    <<SExpr(I(1)), SIf(EBool(TRUE), SBlock(<<>>), NoS)>>,
+    <<SExpr(I(1)), SIf(EBool(TRUE), SBlock(<<SVar1("y", I(3))>>), SBlock(<<SExpr(I(4))>>))>>,
+    <<SExpr(I(1)), SBlock(<<>>)>>,
+    <<SExpr(I(1)), SBlock(<<SExpr(I(2)), SVar1("y", I(3))>>)>>,
+    <<SExpr(I(1)), SBlock(<<SExpr(I(2)), SBlock(<<>>)>>)>>,
+    <<SExpr(I(5)), STry(SBlock(<<SExpr(I(6))>>), "e", NoS, SBlock(<<SExpr(I(7))>>))>>,
+    <<SExpr(I(5)), STry(SBlock(<<SThrow(I(6))>>), "e", SBlock(<<SExpr(I(8))>>), NoS)>>,
+    <<SExpr(I(5)), STry(SBlock(<<SThrow(I(6))>>), "e", SBlock(<<>>), NoS)>>,
+    <<SExpr(I(5)), STry(SBlock(<<>>), "e", SBlock(<<>>), SBlock(<<SExpr(I(7))>>))>>,
+    <<SExpr(I(8)), SSwitch(I(1), <<Case(I(1), <<SExpr(I(9))>>), Case(I(2), <<SExpr(I(10))>>)>>)>>,
+    <<SExpr(I(8)), SSwitch(I(1), <<Case(I(1), <<SExpr(I(9)), SBreak("")>>), Case(I(2), <<SExpr(I(10))>>)>>)>>,
+    <<SExpr(I(8)), SSwitch(I(3), <<Case(I(1), <<SExpr(I(9))>>)>>)>>,
+    <<SExpr(I(1)), SDo(SBlock(<<SExpr(I(11)), SBreak("")>>), EBool(FALSE))>>,
+    <<SExpr(I(1)), SDo(SBlock(<<SExpr(I(11)), SCont(""), SExpr(I(12))>>), EBool(FALSE))>>,
+    <<SExpr(I(1)), SFor(NoS, Bin("<", Var("x"), I(2)), Upd("++", FALSE, "x"), SBlock(<<SExpr(Plus(Var("x"), I(20)))>>))>>,
+    <<SExpr(I(1)), SForIn(TRUE, "k", Obj(<<"p", "q">>, <<I(1), I(2)>>), SBlock(<<SExpr(Var("k"))>>))>>,
+    <<SExpr(I(1)), SForOf(TRUE, "v", Arr(<<I(30), I(31)>>), SBlock(<<SExpr(Var("v")), SIf(EBool(TRUE), SBlock(<<SBreak("")>>), NoS)>>))>>,
+    <<SExpr(I(1)), SLabel("L", SBlock(<<SExpr(I(2)), SBreak("L"), SExpr(I(3))>>))>>,
+    <<SExpr(I(1)), SLabel("L", W1(<<SExpr(I(2)), W1(<<SBreak("L")>>)>>))>>,
+    <<SExpr(I(1)), SFun("h", <<>>, <<>>)>>,
+    <<SExpr(I(1)), SExpr(Asg("x", I(41)))>>,
+    <<SVar1("y", I(2))>>,
+    <<>>,
+    <<SExpr(I(1)), STry(SBlock(<<SExpr(I(2)), SThrow(I(3))>>), "e", SBlock(<<SVar1("y", I(4))>>), NoS)>>,
+    <<SExpr(I(1)), SWhile(Bin("<", Var("x"), I(2)), SBlock(<<Inc("x"), SIf(Bin("==", Var("x"), I(1)), SBlock(<<SExpr(I(50))>>), SBlock(<<SVar1("y", I(0))>>))>>))>>
+  >>
+CVProg(j) == Prog(<<SVar1("x", I(0))>> \o CVBodies[j])
+
+\* ======================= family CL: closures ==============================================================
+\* captured variable kind x access x sharing shape
+CLKinds == {"param", "local", "loopvar", "catchvar", "fname", "outerparam", "global"}
+CLOps == {"read", "write", "update", "compound"}
+CLShapes == {"two", "twoact", "loop", "nested", "callback"}
+CapName(kd) == CASE kd = "param" -> "p" [] kd = "local" -> "v" [] kd = "loopvar" -> "i" [] kd = "catchvar" -> "v"
+                 [] kd = "fname" -> "mk" [] kd = "outerparam" -> "op" [] kd = "global" -> "gv"
+\* the closure that observes the captured variable, and the one that changes it
+Getter(x) == Fun("", <<>>, <<SRet(Var(x))>>)
+Setter(op, x) == CASE op = "write" -> Fun("", <<"a">>, <<Set(x, Var("a"))>>)
+                   [] op = "update" -> Fun("", <<"a">>, <<SExpr(Upd("++", FALSE, x))>>)
+                   [] op = "compound" -> Fun("", <<"a">>, <<SExpr(CAsg("+", x, Var("a")))>>)
+                   [] op = "read" -> Fun("", <<"a">>, <<SRet(Plus(Var(x), Var("a")))>>)
+\* mk(p) returns {g: getter, s: setter} over the captured variable
+MkBody(kd, op) ==
+  LET x == CapName(kd)
+      pair == SRet(Obj(<<"g", "s">>, <<Getter(x), Setter(op, x)>>))
+  IN CASE kd = "param" -> <<pair>>
+       [] kd = "local" -> <<SVar1("v", Plus(Var("p"), I(10))), pair>>
+       [] kd = "global" -> <<pair>>
+       [] kd = "outerparam" -> <<pair>>
+MkDef(kd, op) ==
+  IF kd = "outerparam"
+  THEN SFun("outer", <<"op">>, <<SFun("mk", <<"p">>, MkBody(kd, op)), SRet(Var("mk"))>>)
+  ELSE SFun("mk", <<"p">>, MkBody(kd, op))
+Use(o, arg) == <<SLog(Call(Dot(Var(o), "g"), <<>>)), SLog(Call(Dot(Var(o), "s"), <<I(arg)>>)), SLog(Call(Dot(Var(o), "g"), <<>>))>>
+CLPairProg(kd, op) ==
+  Prog(<<SVar1("gv", I(1)), MkDef(kd, op)>>
+       \o (IF kd = "outerparam" THEN <<SVar1("mk", Call(Var("outer"), <<I(3)>>))>> ELSE <<>>)
+       \o <<SVar1("a", Call(Var("mk"), <<I(1)>>)), SVar1("b", Call(Var("mk"), <<I(2)>>))>>
+       \o Use("a", 5) \o Use("b", 7) \o Use("a", 1) \o <<SLog(Var("gv"))>>)
+\* closures created in a loop / in a callback / nested pass-through / named function expression / arguments
+CLOther == <<
+    \* var-scoped loop variable: every closure sees the final value
+    <<SFun("w", <<>>, <<SVar1("fs", Arr(<<>>)),
+                        SFor(SVar1("i", I(0)), Bin("<", Var("i"), I(3)), Upd("++", FALSE, "i"), SBlock(<<SExpr(Call(Dot(Var("fs"), "push"), <<Getter("i")>>))>>)),
+                        SRet(Var("fs"))>>),
+      SVar1("fs", Call(Var("w"), <<>>)), SLog(Call(Mem(Var("fs"), I(0)), <<>>)), SLog(Call(Mem(Var("fs"), I(2)), <<>>))>>,
+    \* per-iteration activation: each closure has its own parameter
+    <<SFun("w", <<>>, <<SVar1("fs", Arr(<<>>)),
+                        SFor(SVar1("i", I(0)), Bin("<", Var("i"), I(3)), Upd("++", FALSE, "i"),
+                             SBlock(<<SExpr(Call(Dot(Var("fs"), "push"), <<Call(Fun("", <<"q">>, <<SRet(Getter("q"))>>), <<Var("i")>>)>>))>>)),
+                        SRet(Var("fs"))>>),
+      SVar1("fs", Call(Var("w"), <<>>)), SLog(Call(Mem(Var("fs"), I(0)), <<>>)), SLog(Call(Mem(Var("fs"), I(2)), <<>>))>>,
+    \* for-in loop variable captured inside a function
+    <<SFun("w", <<>>, <<SVar1("fs", Arr(<<>>)),
+                        SForIn(TRUE, "k", Obj(<<"p", "q">>, <<I(1), I(2)>>), SBlock(<<SExpr(Call(Dot(Var("fs"), "push"), <<Getter("k")>>))>>)),
+                        SLog(Var("k")), SRet(Var("fs"))>>),
+      SVar1("fs", Call(Var("w"), <<>>)), SLog(Call(Mem(Var("fs"), I(0)), <<>>)), SLog(Call(Mem(Var("fs"), I(1)), <<>>))>>,
+    \* for-of loop variable captured inside a function
+    <<SFun("w", <<>>, <<SVar1("fs", Arr(<<>>)),
+                        SForOf(TRUE, "k", Arr(<<I(7), I(8)>>), SBlock(<<SExpr(Call(Dot(Var("fs"), "push"), <<Getter("k")>>))>>)),
+                        SLog(Var("k")), SRet(Var("fs"))>>),
+      SVar1("fs", Call(Var("w"), <<>>)), SLog(Call(Mem(Var("fs"), I(0)), <<>>)), SLog(Call(Mem(Var("fs"), I(1)), <<>>))>>,
+    \* closures created by a callback of forEach capture the callback's parameter and the outer local
+    <<SFun("w", <<>>, <<SVar(<<Decl("fs", Arr(<<>>)), Decl("sum", I(0))>>),
+                        SExpr(Call(Dot(Arr(<<I(1), I(2), I(3)>>), "forEach"),
+                                   <<Fun("", <<"q">>, <<Set("sum", Plus(Var("sum"), Var("q"))),
+                                                      SExpr(Call(Dot(Var("fs"), "push"), <<Fun("", <<>>, <<SRet(Plus(Var("q"), Var("sum")))>>)>>))>>)>>)),
+                        SRet(Var("fs"))>>),
+      SVar1("fs", Call(Var("w"), <<>>)), SLog(Call(Mem(Var("fs"), I(0)), <<>>)), SLog(Call(Mem(Var("fs"), I(2)), <<>>))>>,
+    \* pass-through: the innermost function reaches the outermost parameter and local through a middle function
+    <<SFun("o1", <<"p">>, <<SVar1("v", I(10)),
+                            SRet(Fun("", <<"q">>, <<SRet(Fun("", <<"r">>, <<Set("v", Plus(Var("v"), I(1))), SRet(Plus(Plus(Plus(Var("p"), Var("q")), Var("r")), Var("v")))>>))>>))>>),
+      SVar1("m1", Call(Var("o1"), <<I(100)>>)), SVar1("i1", Call(Var("m1"), <<I(20)>>)), SVar1("i2", Call(Var("m1"), <<I(30)>>)),
+      SLog(Call(Var("i1"), <<I(1)>>)), SLog(Call(Var("i2"), <<I(2)>>)), SLog(Call(Var("i1"), <<I(3)>>))>>,
+    \* named function expression: recursion through its own name, name not visible outside, captured by an inner closure
+    <<SVar1("fa", Fun("fact", <<"n">>, <<SRet(Cond(Bin("<=", Var("n"), I(1)), I(1), Bin("*", Var("n"), Call(Var("fact"), <<Bin("-", Var("n"), I(1))>>))))>>)),
+      SLog(Call(Var("fa"), <<I(4)>>)), SLog(TypeOf(Var("fact")))>>,
+    <<SVar1("fa", Fun("self", <<>>, <<SRet(Fun("", <<>>, <<SRet(Bin("===", Var("self"), Var("fa")))>>))>>)),
+      SLog(Call(Call(Var("fa"), <<>>), <<>>)), SVar1("fb", Var("fa")), Set("fa", I(0)), SLog(TypeOf(Call(Var("fb"), <<>>)))>>,
+    \* arguments: per activation, captured by value in a local
+    <<SFun("w", <<"p">>, <<SVar1("a", Var("arguments")), SRet(Fun("", <<>>, <<SRet(Plus(Mem(Var("a"), I(1)), Dot(Var("arguments"), "length")))>>))>>),
+      SVar1("c1", Call(Var("w"), <<I(1), I(2)>>)), SVar1("c2", Call(Var("w"), <<I(3), I(4), I(5)>>)),
+      SLog(Call(Var("c1"), <<>>)), SLog(Call(Var("c2"), <<I(9)>>))>>,
+    \* recursion: each activation has its own locals
+    <<SFun("r", <<"n">>, <<SVar1("v", Var("n")), SIf(Bin(">", Var("n"), I(0)), SBlock(<<SExpr(Call(Var("r"), <<Bin("-", Var("n"), I(1))>>))>>), NoS), SLog(Var("v"))>>),
+      SExpr(Call(Var("r"), <<I(2)>>))>>,
+    \* a closure assigned before the captured variable is initialised sees later writes
+    <<SFun("w", <<>>, <<SVar1("get", Getter("late")), SVar1("late", I(5)), SLog(Call(Var("get"), <<>>)), Set("late", I(6)), SRet(Var("get"))>>),
+      SLog(Call(Call(Var("w"), <<>>), <<>>))>>,
+    \* catch parameter captured by a closure
+    <<SFun("w", <<>>, <<SVar1("get", NoE), STry(SBlock(<<SThrow(I(7))>>), "e", SBlock(<<Set("get", Getter("e"))>>), NoS), SRet(Var("get"))>>),
+      SLog(Call(Call(Var("w"), <<>>), <<>>))>>,
+    \* function declaration captured by a sibling closure; counter shared between two declarations
+    <<SFun("w", <<>>, <<SVar1("c", I(0)), SFun("inc", <<>>, <<Inc("c"), SRet(Var("c"))>>), SFun("twice", <<>>, <<SExpr(Call(Var("inc"), <<>>)), SRet(Call(Var("inc"), <<>>))>>),
+                        SRet(Var("twice"))>>),
+      SVar1("t1", Call(Var("w"), <<>>)), SLog(Call(Var("t1"), <<>>)), SLog(Call(Var("t1"), <<>>)), SLog(Call(Call(Var("w"), <<>>), <<>>))>>,
+    \* arrow functions capture like functions
+    <<SFun("w", <<"p">>, <<SVar1("v", I(1)), SRet(Arrow(<<"q">>, <<Set("v", Plus(Var("v"), Var("q"))), SRet(Plus(Var("v"), Var("p")))>>))>>),
+      SVar1("a1", Call(Var("w"), <<I(10)>>)), SLog(Call(Var("a1"), <<I(1)>>)), SLog(Call(Var("a1"), <<I(2)>>)), SLog(Call(Call(Var("w"), <<I(20)>>), <<I(5)>>))>>
+  >>
+CLCases == {[k |-> "pair", kd |-> kd, op |-> op] : kd \in {"param", "local", "global", "outerparam"}, op \in CLOps}
+           \cup {[k |-> "other", j |-> j] : j \in 1..Len(CLOther)}
+CLProg(c) == IF c.k = "pair" THEN CLPairProg(c.kd, c.op) ELSE Prog(CLOther[c.j] \o <<SLog(I(50))>>)
+
 \* ======================= the case space ===========================================================
-FamilyProg(cs) == CASE cs.fam = "CF" -> CFProg(cs.c)
-AllCases == {[fam |-> "CF", c |-> c] : c \in CFCases}
+FamilyProg(cs) == CASE cs.fam = "CF" -> CFProg(cs.c) [] cs.fam = "SW" -> SWProg(cs.c) [] cs.fam = "EO" -> EOProg(cs.c.j)
+                    [] cs.fam = "HO" -> HOProg(cs.c.j) [] cs.fam = "CV" -> CVProg(cs.c.j) [] cs.fam = "CL" -> CLProg(cs.c)
+Fams == IF "FAMS" \in DOMAIN IOEnv THEN IOEnv.FAMS ELSE "CF SW EO HO CV CL"
+Has(f) == \E j \in 1..(Len(Fams) - 1) : SubSeq(Fams, j, j + 1) = f
+AllCases == (IF Has("CF") THEN {[fam |-> "CF", c |-> c] : c \in CFCases} ELSE {})
+            \cup (IF Has("SW") THEN {[fam |-> "SW", c |-> c] : c \in SWCases} ELSE {})
+            \cup (IF Has("EO") THEN {[fam |-> "EO", c |-> [j |-> j]] : j \in 1..Len(EOBodies)} ELSE {})
+            \cup (IF Has("HO") THEN {[fam |-> "HO", c |-> [j |-> j]] : j \in 1..Len(HOBodies)} ELSE {})
+            \cup (IF Has("CV") THEN {[fam |-> "CV", c |-> [j |-> j]] : j \in 1..Len(CVBodies)} ELSE {})
+            \cup (IF Has("CL") THEN {[fam |-> "CL", c |-> c] : c \in CLCases} ELSE {})
 
 \* ======================= state machine around MiniJS ===============================================
 VARIABLES rec_i, cur, mst                \* rec_i: judged record; cur: enumerated case; mst: machine state
 vars == <<rec_i, cur, mst>>
 Invariants == KontWF(mst) /\ FinallyOnce(mst) /\ TryAccounting(mst)
+AsIsInvariants == \A j \in 1..Len(mst.k) : mst.k[j].f \in ValueFrames \cup StmtFrames
 LogAppendOnly == [][IsPrefix(mst.log, mst'.log)]_vars
 MachineNext == ~Halted(mst) /\ mst' = Step(mst, MaxSteps) /\ UNCHANGED <<rec_i, cur>>
 
@@ -130,7 +359,10 @@ EnumEmit == ~Halted(mst) \/ PrintT(ToJson([fam |-> cur.fam, par |-> cur.c, prog 
 \* ---------------- Judge ---------------------------------------------------------------------------------
 Recs == ndJsonDeserialize(IOEnv.OBS_FILE)                 \* [id, prog, devs, log, out, pos]
 \* named deviations (as-is rules of the engine for recorded findings); "*" selects all of them
-AllDevs == {"Dev_NoFnHoist", "Dev_NoGlobalVarHoist", "Dev_VarRedecl"}
+\* (the as-is rules of repaired defects - Dev_NoFnHoist, Dev_NoGlobalVarHoist, Dev_VarRedecl, Dev_SwitchDefaultOrder,
+\*  Dev_CallbackThrow, Dev_ErrorHierarchy, Dev_NoRuntimeLoc, Dev_NoLocInFunctions - stay in MiniJS as documentation of what
+\*  the snapshot did; they are no longer switched on, so a regression is a VIOLATION)
+AllDevs == {"Dev_CompletionTail", "Dev_CatchParamScope"}
 DevsOf(r) == LET S == {r.devs[j] : j \in 1..Len(r.devs)} IN IF "*" \in S THEN AllDevs ELSE S
 PosOf(r, nid, fld) == LET S == {j \in 1..Len(r.pos) : r.pos[j][1] = nid}
                       IN IF S = {} THEN -1 ELSE r.pos[CHOOSE j \in S : TRUE][IF fld = "line" THEN 2 ELSE 3]
@@ -142,6 +374,8 @@ ValMatches(r, v, a) ==
     [] v.t \in {"undef", "null"} -> a.t = v.t
     [] v.t = "ref" -> a.t = "ref" /\ a.h = v.h
     [] v.t = "loc" -> a.t = "int" /\ a.i = PosOf(r, v.nid, v.f)
+    [] v.t = "hostnone" -> a.t = "host" /\ a.d = "NoneType"                     \* as-is only (Dev_NoLocInFunctions)
+    [] v.t = "anyloc" -> a.t = "int" \/ (a.t = "host" /\ a.d = "NoneType")       \* as-is only (Dev_NoRuntimeLoc)
     [] OTHER -> FALSE
 LogMatches(r, lg, alog) == Len(lg) = Len(alog) /\ \A j \in 1..Len(lg) : ValMatches(r, lg[j], alog[j])
 LogPrefixMatches(r, lg, alog) == Len(lg) <= Len(alog) /\ \A j \in 1..Len(lg) : ValMatches(r, lg[j], alog[j])
